@@ -1,10 +1,20 @@
 #!/usr/bin/env python3
-"""subst.py <file> <old> <new> [count]  — exact-text replacement, fails loudly if old is absent."""
+"""subst.py <file> <old> <new> [count]  — exact-text replacement.
+
+Fails loudly if old is absent, and -- unless a count is given -- if old occurs
+more than once (replacing "the first of several" once edited the wrong function).
+"""
 import sys
 f, old, new = sys.argv[1], sys.argv[2], sys.argv[3]
-cnt = int(sys.argv[4]) if len(sys.argv) > 4 else 1
 s = open(f).read()
-if old not in s:
+n = s.count(old)
+if n == 0:
     sys.exit("subst: text not found in %s: %r" % (f, old[:80]))
+if len(sys.argv) > 4:
+    cnt = int(sys.argv[4])
+elif n > 1:
+    sys.exit("subst: text occurs %d times in %s (pass a count to replace the first N): %r" % (n, f, old[:80]))
+else:
+    cnt = 1
 s = s.replace(old, new, cnt)
 open(f, "w").write(s)
